@@ -43,6 +43,10 @@ FEATURES = {'define', 'condition', 'repeat', 'switch', 'content', 'replace', 'om
 
 I18N = ['<p i18n:translate="">Hello <b i18n:name="first">${a}</b> and <i i18n:name="second">x</i> and <u i18n:name="third">y</u>!</p>',
         '<div i18n:domain="d"><span i18n:translate="msg">A <em i18n:name="n1" tal:content="a">1</em> <em i18n:name="n2">2</em></span></div>']
+STALE = ['<div><b tal:condition="exists: repeat.item">stale ${repeat.item.number}</b><i tal:repeat="item xs">${item}</i></div>',
+         '<div>${exists: repeat[\'item\']}<i tal:repeat="item xs">${repeat.item.length}</i>${exists: repeat.item}</div>',
+         '<div>${exists: g}<u tal:define="global g 1">${g}</u>${g}</div>',
+         '<div>${exists: error}<p tal:on-error="string:E">${nosuch}</p></div>']
 MACRO = '<div><p metal:define-macro="m">M ${a}<span metal:define-slot="s">D</span></p><x metal:use-macro="macros[\'m\']"><i metal:fill-slot="s">F</i></x></div>'
 
 CHILD = r'''
@@ -80,6 +84,9 @@ def gen_cases(rng, n):
             cases.append({'src': rng.choice(I18N), 'vars': [['a', {'str': 'Ann'}]], 'objs': [], 'translate': 'record'})
         elif r < 0.2:
             cases.append({'src': MACRO, 'vars': [['a', i]], 'objs': []})
+        elif r < 0.26:
+            # per-render state read where it must not exist (yet / any more): repeat items, globals, on-error's `error`
+            cases.append({'src': rng.choice(STALE), 'vars': [['xs', {'list': [1, 2, 3][:rng.randint(1, 3)]}]], 'objs': []})
         else:
             g = talgen.TalGen(rng, depth=rng.choice([1, 2]), features=FEATURES)
             cases.append(g.template())
@@ -370,6 +377,8 @@ def oracle(ctx):
             nt += 1
             if res[0][1] != '<p><b>inc1</b></p>' or res[1][1] != res[0][1] or str(res[0][0].filename) != str(res[1][0].filename):
                 ctx.violation('two racing loads of one name through a shared loader', {'order': order}, expected='<p><b>inc1</b></p>', actual=[r[1] for r in res])
+        # (d) interleavings *inside* render(): the templates call gate() between their steps; the harness decides who runs
+        nt += gated_interleavings(ctx)
         # (c) randomised preemption
         old = sys.getswitchinterval()
         sys.setswitchinterval(1e-6)
@@ -421,6 +430,67 @@ def oracle(ctx):
         shutil.rmtree(d, ignore_errors=True)
     ctx.counters['nontrivial'] = nt
     ctx.sample({'template': I18N[0], 'hash_seeds': ['1', '2', '31337']})
+
+
+GATED = [
+    '<ul><li tal:repeat="item xs">${gate()}${repeat.item.number} of ${repeat.item.length}: ${item}${gate()}</li></ul>',
+    '<div tal:define="global g v">${gate()}<b tal:content="g"/>${gate()}<i tal:repeat="item xs">${repeat.item.index}${gate()}${g}</i></div>',
+    '<div><p metal:define-macro="m">${gate()}<b tal:repeat="item xs">${repeat.item.number}/${v}${gate()}</b></p>'
+    '<x metal:use-macro="macros[\'m\']"/></div>',
+    '<div i18n:domain="d" tal:define="w v">${gate()}<p tal:on-error="string:E${v}">${gate()}${nosuch}</p>${w}${gate()}'
+    '<span tal:switch="v"><i tal:case="v">${gate()}${v}</i></span></div>',
+    '<div tal:define="a v"><i tal:repeat="item xs" tal:attributes="class repeat.item.even and \'e\' or \'o\'">${gate()}${a}${item}</i></div>',
+]
+
+
+def gated_interleavings(ctx):
+    """n threads render one shared template object with different arguments; every gate() call hands control back to the
+    harness, which lets the threads advance in the order of a schedule.  Each thread must return what it returns alone."""
+    from chameleon import PageTemplate
+    n_done = 0
+    for _ in range(ctx.budget(60, 1500)):
+        src = ctx.rng.choice(GATED)
+        n = ctx.rng.choice([2, 2, 3])
+        args = [{'xs': list(range(10 * (i + 1), 10 * (i + 1) + ctx.rng.randint(1, 4))), 'v': 'T%d' % i} for i in range(n)]
+        t = PageTemplate(src)
+        solo = [t(gate=lambda: '', **a) for a in args]
+        sched = [ctx.rng.randrange(n) for _ in range(ctx.rng.randint(3, 14))]
+        go = [threading.Semaphore(0) for _ in range(n)]
+        arrived = [threading.Semaphore(0) for _ in range(n)]
+        done = [False] * n
+        res = [None] * n
+
+        def run(i):
+            def gate():
+                arrived[i].release()
+                go[i].acquire()
+                return ''
+            go[i].acquire()
+            try:
+                res[i] = t(gate=gate, **args[i])
+            except BaseException as e:
+                res[i] = 'raised %s' % type(e).__name__
+            done[i] = True
+            arrived[i].release()
+        ths = [threading.Thread(target=run, args=(i,), daemon=True) for i in range(n)]
+        for th in ths:
+            th.start()
+        for i in sched + list(range(n)) * 40:
+            if all(done):
+                break
+            if done[i]:
+                continue
+            go[i].release()
+            if not arrived[i].acquire(timeout=20):
+                raise RuntimeError('gated render thread did not come back')
+        for th in ths:
+            th.join(5)
+        ctx.count('evaluations', n)
+        n_done += 1
+        if res != solo:
+            ctx.violation('concurrent render() calls on a shared template, interleaved between their steps, return something else than alone',
+                          {'src': src, 'args': args, 'schedule': sched}, expected=solo, actual=res)
+    return n_done
 
 
 def snapshot(kw):
